@@ -32,7 +32,8 @@
 (***************************************************************************)
 EXTENDS BankOps, FiniteSets, SequencesExt, TLC, Json
 
-CONSTANTS Mods,       \* module slot -> "accept" | "fail"   (custom, staking, distribution, ibc, gov, stargate, any)
+CONSTANTS Mods,       \* module slot -> "accept" | "fail"   (custom, staking, distribution, ibc, gov, stargate, any);
+                      \* staking / distribution may also be "real": StakeKeeper / DistributionKeeper with their semantics
           AddrMode    \* "simple": the default address generator (a function of code id and instance count);
                       \* "percode": a custom AddressGenerator handing out one well-known address per code id
 
@@ -53,6 +54,11 @@ TypeUrl(m) ==
       [] m.k = "migrate" -> "/cosmwasm.wasm.v1.MsgMigrateContractResponse"
       [] m.k = "update_admin" -> "/cosmwasm.wasm.v1.MsgUpdateAdminResponse"
       [] m.k = "clear_admin" -> "/cosmwasm.wasm.v1.MsgClearAdminResponse"
+      [] m.k = "stake" -> (CASE m.op = "delegate" -> "/cosmos.staking.v1beta1.MsgDelegateResponse"
+                             [] m.op = "undelegate" -> "/cosmos.staking.v1beta1.MsgUndelegateResponse"
+                             [] OTHER -> "/cosmos.staking.v1beta1.MsgBeginRedelegateResponse")
+      [] m.k = "distr" -> (IF m.op = "withdraw" THEN "/cosmos.distribution.v1beta1.MsgWithdrawDelegatorRewardResponse"
+                           ELSE "/cosmos.distribution.v1beta1.MsgSetWithdrawAddressResponse")
       [] m.k = "mod" /\ m.slot = "staking" -> "/cosmos.staking.v1beta1.MsgDelegateResponse"
       [] m.k = "mod" /\ m.slot = "distribution" -> "/cosmos.distribution.v1beta1.MsgSetWithdrawAddressResponse"
       [] m.k = "mod" /\ m.slot = "gov" -> "/cosmos.gov.v1beta1.MsgVoteResponse"
@@ -125,6 +131,65 @@ ApplyWrites(m, ws) == IF ws = <<>> THEN m
                       ELSE LET w == Head(ws) IN
                            ApplyWrites(IF w[2] = "DEL" THEN DelFn(m, w[1]) ELSE PutFn(m, w[1], w[2]), Tail(ws))
 
+
+(* ------------------------------------------------------------------------ *)
+(* staking and distribution with their real semantics (src/staking.rs), for configurations with
+   Mods.staking = Mods.distribution = "real".  Two validators; the annual rate is YEAR/5, so a staked
+   token earns 1/5 token per second at v1 (no commission) and 1/10 at v2 (50 % commission): every
+   intermediate value of the code's 18-digit decimals is exact and rewards are counted in TENTHS of a
+   token.  No slashing here (Staking.tla has it).  st.sk = [sh, lc, q, wa]:
+     sh  "d|v" -> [d, v, s (whole tokens), r (tenths)]     entries exist only while s > 0 (STAKES)
+     lc  validator -> time of its last reward calculation  (ValidatorInfo)
+     q   the unbonding queue, FIFO: [d, v, amt, at]
+     wa  delegator -> withdraw address (missing = itself) *)
+Validators == {"v1", "v2"}
+Rate(v) == IF v = "v1" THEN 2 ELSE 1
+UnbondSecs == 10
+Bonded == "eth"
+Pool == "pool"                       \* the staking module's own account
+SKey(d, v) == d \o "|" \o v
+
+(* update_rewards *)
+SkUpdateRewards(sk, v, t) ==
+    IF sk.lc[v] >= t THEN sk
+    ELSE LET dt == t - sk.lc[v] IN
+         [sk EXCEPT !.lc[v] = t,
+                    !.sh = [k \in DOMAIN sk.sh |->
+                               IF sk.sh[k].v = v THEN [sk.sh[k] EXCEPT !.r = @ + sk.sh[k].s * dt * Rate(v)] ELSE sk.sh[k]]]
+
+(* add_stake / remove_stake after the denomination check: [ok, sk] *)
+SkAdd(sk0, d, v, a, t) ==
+    IF v \notin Validators THEN [ok |-> FALSE, sk |-> sk0]
+    ELSE LET sk == SkUpdateRewards(sk0, v, t)
+             k == SKey(d, v)
+             cur == IF k \in DOMAIN sk.sh THEN sk.sh[k] ELSE [d |-> d, v |-> v, s |-> 0, r |-> 0]
+             new == [cur EXCEPT !.s = @ + a]
+         IN [ok |-> TRUE, sk |-> [sk EXCEPT !.sh = IF new.s = 0 THEN DelFn(@, k) ELSE PutFn(@, k, new)]]
+
+SkRemove(sk0, d, v, a, t) ==
+    IF v \notin Validators THEN [ok |-> FALSE, sk |-> sk0]
+    ELSE LET sk == SkUpdateRewards(sk0, v, t)
+             k == SKey(d, v)
+         IN IF k \notin DOMAIN sk.sh THEN [ok |-> FALSE, sk |-> sk0]
+            ELSE IF a > sk.sh[k].s THEN [ok |-> FALSE, sk |-> sk0]
+            ELSE LET new == [sk.sh[k] EXCEPT !.s = @ - a] IN
+                 [ok |-> TRUE, sk |-> [sk EXCEPT !.sh = IF new.s = 0 THEN DelFn(@, k) ELSE PutFn(@, k, new)]]
+
+(* remove_rewards: whole tokens are paid, the fraction is dropped *)
+SkClaim(sk0, d, v, t) ==
+    LET sk == SkUpdateRewards(sk0, v, t)
+        k == SKey(d, v)
+    IN [sk EXCEPT !.sh[k].r = 0]
+
+SkReceiver(sk, d) == IF d \in DOMAIN sk.wa THEN sk.wa[d] ELSE d
+
+(* what queries show at time t: "d|v" -> <<delegation, accumulated reward in whole tokens>> *)
+SkView(st, t) ==
+    [k \in DOMAIN st.sk.sh |->
+        LET e == st.sk.sh[k]
+            dt == IF t > st.sk.lc[e.v] THEN t - st.sk.lc[e.v] ELSE 0
+        IN << e.s, (e.r + e.s * dt * Rate(e.v)) \div 10 >>]
+
 (* primitive effects, used both by the evaluator and by the declarative replay *)
 ApplyEff(st, e) ==
     CASE e.e = "cs"   -> [st EXCEPT !.cs = PutFn(@, e.c, ApplyWrites(CsOf(st, e.c), e.ws))]
@@ -132,6 +197,11 @@ ApplyEff(st, e) ==
       [] e.e = "burn" -> [st EXCEPT !.bank = BurnFrom(@, e.from, e.coins).bal]
       [] e.e = "mint" -> [st EXCEPT !.bank = MintTo(@, e.to, e.coins).bal]
       [] e.e = "reg"  -> [st EXCEPT !.reg = PutFn(@, e.c, e.info)]
+      [] e.e = "sk_add"    -> [st EXCEPT !.sk = SkAdd(@, e.d, e.v, e.a, e.t).sk]
+      [] e.e = "sk_remove" -> [st EXCEPT !.sk = SkRemove(@, e.d, e.v, e.a, e.t).sk]
+      [] e.e = "sk_queue"  -> [st EXCEPT !.sk.q = Append(@, [d |-> e.d, v |-> e.v, amt |-> e.a, at |-> e.t + UnbondSecs])]
+      [] e.e = "sk_claim"  -> [st EXCEPT !.sk = SkClaim(@, e.d, e.v, e.t)]
+      [] e.e = "sk_setw"   -> [st EXCEPT !.sk.wa = IF e.d = e.to THEN DelFn(@, e.d) ELSE PutFn(@, e.d, e.to)]
 
 RECURSIVE ApplyEffs(_, _)
 ApplyEffs(st, es) == IF es = <<>> THEN st ELSE ApplyEffs(ApplyEff(st, Head(es)), Tail(es))
@@ -163,6 +233,95 @@ ModExec(x, sender, m) ==
     LET x2 == [x EXCEPT !.rlog = Append(@, [slot |-> m.slot, sender |-> sender, payload |-> m.payload])] IN
     IF Mods[m.slot] = "accept" THEN Ok(x2, <<>>, NoData) ELSE Err(x2)
 
+(* StakeKeeper::execute.  The staking entry of the log carries the event the message returns (the
+   nested bank transfer's event is not kept by the module) *)
+StakeEntry(effs, ev) == [t |-> "sys", eff |-> effs, note |-> "stakemsg", ev |-> ev, dead |-> FALSE, killedAt |-> 0]
+CoinStr(c) == ToString(c[2]) \o c[1]
+
+StakeExec(x0, sender, m) ==
+    LET x == [x0 EXCEPT !.rlog = Append(@, [slot |-> "staking", sender |-> sender, payload |-> m.op])]
+        t == x.block.t
+        a == m.coin[2]
+    IN
+    CASE m.op = "delegate" ->
+           IF a = 0 \/ m.coin[1] # Bonded THEN Err(x)
+           ELSE LET r == SkAdd(x.st.sk, sender, m.v, a, t) IN
+                IF ~r.ok THEN Err(x)
+                ELSE LET ev == << Ev(<<"delegate">>, << <<<<"validator">>, m.v>>, <<<<"amount">>, CoinStr(m.coin)>>,
+                                                         <<<<"new_shares">>, ToString(a)>> >>) >>
+                         x1 == AddLog([x EXCEPT !.st.sk = r.sk],
+                                      StakeEntry(<<[e |-> "sk_add", d |-> sender, v |-> m.v, a |-> a, t |-> t]>>, ev))
+                         b == BankExec(x1, sender, [k |-> "bank_send", to |-> Pool, coins |-> <<m.coin>>], "stake")
+                     IN IF ~b.ok THEN Err(b.x) ELSE Ok(b.x, ev, NoData)
+      [] m.op = "undelegate" ->
+           IF m.coin[1] # Bonded \/ a = 0 THEN Err(x)
+           ELSE LET r == SkRemove(x.st.sk, sender, m.v, a, t) IN
+                IF ~r.ok THEN Err(x)
+                ELSE LET ev == << Ev(<<"unbond">>, << <<<<"validator">>, m.v>>, <<<<"amount">>, CoinStr(m.coin)>>,
+                                                       <<<<"completion_time">>, "2022-09-27T14:00:00+00:00">> >>) >>
+                         qe == [d |-> sender, v |-> m.v, amt |-> a, at |-> t + UnbondSecs]
+                     IN Ok(AddLog([x EXCEPT !.st.sk = [r.sk EXCEPT !.q = Append(@, qe)]],
+                                  StakeEntry(<<[e |-> "sk_remove", d |-> sender, v |-> m.v, a |-> a, t |-> t],
+                                               [e |-> "sk_queue", d |-> sender, v |-> m.v, a |-> a, t |-> t]>>, ev)),
+                           ev, NoData)
+      [] m.op = "redelegate" ->
+           IF m.coin[1] # Bonded THEN Err(x)
+           ELSE LET r1 == SkRemove(x.st.sk, sender, m.v, a, t) IN
+                IF ~r1.ok THEN Err(x)
+                ELSE LET r2 == SkAdd(r1.sk, sender, m.v2, a, t) IN
+                     IF ~r2.ok THEN Err(x)
+                     ELSE LET ev == << Ev(<<"redelegate">>, << <<<<"source_validator">>, m.v>>, <<<<"destination_validator">>, m.v2>>,
+                                                                <<<<"amount">>, CoinStr(m.coin)>> >>) >>
+                          IN Ok(AddLog([x EXCEPT !.st.sk = r2.sk],
+                                       StakeEntry(<<[e |-> "sk_remove", d |-> sender, v |-> m.v, a |-> a, t |-> t],
+                                                    [e |-> "sk_add", d |-> sender, v |-> m.v2, a |-> a, t |-> t]>>, ev)),
+                                ev, NoData)
+
+(* DistributionKeeper::execute *)
+DistrExec(x0, sender, m) ==
+    LET x == [x0 EXCEPT !.rlog = Append(@, [slot |-> "distribution", sender |-> sender, payload |-> m.op])]
+        t == x.block.t
+    IN
+    CASE m.op = "withdraw" ->
+           IF m.v \notin Validators THEN Err(x)
+           ELSE LET sk == SkUpdateRewards(x.st.sk, m.v, t)
+                    k == SKey(sender, m.v)
+                IN IF k \notin DOMAIN sk.sh THEN Err(x)
+                   ELSE LET amt == sk.sh[k].r \div 10
+                            to == SkReceiver(sk, sender)
+                            coins == << <<Bonded, amt>> >>
+                            mm == MintTo(x.st.bank, to, coins)
+                            ev == << Ev(<<"withdraw_delegator_reward">>, << <<<<"validator">>, m.v>>, <<<<"sender">>, sender>>,
+                                                                            <<<<"amount">>, CoinStr(<<Bonded, amt>>)>> >>) >>
+                        IN IF ~mm.ok THEN Err(x)                      \* minting nothing is an error
+                           ELSE Ok(AddLog([x EXCEPT !.st.sk = SkClaim(x.st.sk, sender, m.v, t), !.st.bank = mm.bal],
+                                          StakeEntry(<<[e |-> "sk_claim", d |-> sender, v |-> m.v, t |-> t],
+                                                       [e |-> "mint", to |-> to, coins |-> coins]>>, ev)),
+                                   ev, NoData)
+      [] m.op = "set_withdraw" ->
+           IF m.to = "bad" THEN Err(x)                                \* not an address
+           ELSE LET ev == << Ev(<<"set_withdraw_address">>, << <<<<"withdraw_address">>, m.to>> >>) >> IN
+                Ok(AddLog([x EXCEPT !.st.sk.wa = IF m.to = sender THEN DelFn(@, sender) ELSE PutFn(@, sender, m.to)],
+                          StakeEntry(<<[e |-> "sk_setw", d |-> sender, to |-> m.to]>>, ev)),
+                   ev, NoData)
+
+(* process_queue, run by App::set_block / update_block outside any transaction *)
+RECURSIVE PayQueue(_, _)
+PayQueue(st, t) ==
+    IF st.sk.q = <<>> \/ Head(st.sk.q).at > t THEN st
+    ELSE LET u == Head(st.sk.q)
+             paid == IF u.amt = 0 THEN st.bank ELSE SendFromTo(st.bank, Pool, u.d, << <<Bonded, u.amt>> >>).bal
+         IN PayQueue([st EXCEPT !.bank = paid, !.sk.q = Tail(@)], t)
+
+(* the module calls process_queue makes: one bank transfer from the module's account per matured, non-empty entry *)
+RECURSIVE PayoutLog(_, _)
+PayoutLog(q, t) ==
+    IF q = <<>> \/ Head(q).at > t THEN <<>>
+    ELSE (IF Head(q).amt = 0 THEN <<>> ELSE <<[slot |-> "bank", sender |-> Pool, payload |-> "bank_send"]>>) \o PayoutLog(Tail(q), t)
+
+(* everything still unbonding paid out (what a far-future block update does) *)
+Settled(st) == PayQueue(st, 2000000000).bank
+
 (* WasmKeeper::send: nothing happens (and no event is kept) for an empty coin list *)
 SendFunds(x, from, to, coins) ==
     IF coins = <<>> THEN Ok(x, <<>>, NoData)
@@ -181,7 +340,7 @@ Invoke(x, entry, c, sender, funds, rep) ==
              e == [t |-> "inv", idx |-> x.pos, entry |-> entry, c |-> c,
                    flavour |-> x.codes[x.st.reg[c].code].flavour,
                    sender |-> sender, funds |-> funds, block |-> x.block, reply |-> rep,
-                   reads |-> x.st,
+                   reads |-> x.st, skview |-> SkView(x.st, x.block.t),
                    eff |-> IF good /\ b.writes # <<>> THEN <<[e |-> "cs", c |-> c, ws |-> b.writes]>> ELSE <<>>,
                    dead |-> FALSE, killedAt |-> 0]
              x2 == AddLog([x EXCEPT !.pos = @ + 1], e)
@@ -292,6 +451,8 @@ RouterExec(x, sender, m) ==
     IF x.need THEN Err(x)
     ELSE CASE m.k \in {"bank_send", "bank_burn"} -> BankExec(x, sender, m, "msg")
            [] m.k = "mod" -> ModExec(x, sender, m)
+           [] m.k = "stake" -> StakeExec(x, sender, m)
+           [] m.k = "distr" -> DistrExec(x, sender, m)
            [] OTHER -> WasmExec([x EXCEPT !.rlog = Append(@, [slot |-> "wasm", sender |-> sender, payload |-> m.k])], sender, m)
 
 (* WasmKeeper::sudo *)
@@ -331,8 +492,9 @@ RunTx(st, codes, block, call, sc) ==
 
 (* ------------------------------------------------------------------------ *)
 (* calls outside transactions and the empty chain                           *)
-EmptyState == [bank |-> [a \in {} |-> ZeroRow], reg |-> [c \in {} |-> 0], cs |-> [c \in {} |-> 0]]
 Block0 == [h |-> 12345, t |-> 1571797419]
+EmptySk == [sh |-> [k \in {} |-> 0], lc |-> [v \in Validators |-> Block0.t], q |-> <<>>, wa |-> [d \in {} |-> ""]]
+EmptyState == [bank |-> [a \in {} |-> ZeroRow], reg |-> [c \in {} |-> 0], cs |-> [c \in {} |-> 0], sk |-> EmptySk]
 
 MaxOf(S) == IF S = {} THEN 0 ELSE CHOOSE m \in S : \A y \in S : y <= m
 
@@ -354,8 +516,14 @@ AdminCall(cd, blk, call) ==
            [ok |-> TRUE, val |-> 0, block |-> [h |-> call.h, t |-> call.t], codes |-> cd]
       [] call.k = "next_block" ->
            [ok |-> TRUE, val |-> 0, block |-> [h |-> blk.h + 1, t |-> blk.t + 5], codes |-> cd]
+      [] call.k = "advance" ->             \* update_block with a closure adding one block and call.dt seconds
+           [ok |-> TRUE, val |-> 0, block |-> [h |-> blk.h + 1, t |-> blk.t + call.dt], codes |-> cd]
 
-IsAdmin(call) == call.k \in {"store_code", "store_code_with_id", "duplicate_code", "set_block", "next_block"}
+IsAdmin(call) == call.k \in {"store_code", "store_code_with_id", "duplicate_code", "set_block", "next_block", "advance"}
+
+(* set_block / update_block run the staking module's process_queue against the root storage *)
+AdminRlog(st, call, blk) == IF call.k \in {"set_block", "next_block", "advance"} THEN PayoutLog(st.sk.q, blk.t) ELSE <<>>
+AfterAdmin(st, call, blk) == IF call.k \in {"set_block", "next_block", "advance"} THEN PayQueue(st, blk.t) ELSE st
 
 (* ------------------------------------------------------------------------ *)
 (* declarative characterisations over the log                               *)
@@ -415,6 +583,7 @@ EventsOfLog(log, sc, i) ==
                     ELSE IF e.t = "sys" /\ e.eff[1].e = "move" /\ e.note = "msg"
                          THEN << Ev(<<"transfer">>, << <<<<"recipient">>, e.eff[1].to>>, <<<<"sender">>, e.eff[1].from>>,
                                                        <<<<"amount">>, CoinsStr(e.eff[1].coins)>> >>) >>
+                    ELSE IF e.t = "sys" /\ e.note = "stakemsg" THEN e.ev
                     ELSE <<>>
          IN blk \o EventsOfLog(log, sc, i + 1)
 
